@@ -42,6 +42,7 @@ if REPO not in sys.path:
 if HERE not in sys.path:
     sys.path.insert(0, HERE)
 
+from vlib import core  # noqa: E402
 from vlib.core import (  # noqa: E402
     Outcome,
     HarnessError,
@@ -64,9 +65,36 @@ def derive_seed(seed, cid, widx, rnd):
 # --------------------------------------------------------------------------
 
 
+def _sut_root():
+    return os.path.realpath(os.path.join(os.environ.get("VERIF_REPO", "/repo"), "xobjects")) + os.sep
+
+
+def run_case_guarded(mod, case):
+    """run_case; an exception raised INSIDE the library under test that escaped the check's own sut() wrappers (a
+    navigation or a message formatted from a live object) is the library failing on an operation the check performs on
+    every case of the unchanged tree: it is reported as a violation of the property, not as a harness error.
+    Exceptions raised by harness code itself propagate (exit 2)."""
+    try:
+        return mod.run_case(case)
+    except Exception as e:  # noqa: BLE001
+        import traceback
+
+        frames = traceback.extract_tb(e.__traceback__)
+        inner = frames[-1] if frames else None
+        if inner is None or not os.path.realpath(inner.filename).startswith(_sut_root()):
+            raise
+        hf = [f for f in frames if "/verif/" in f.filename or f.filename.startswith(os.path.dirname(os.path.dirname(os.path.abspath(__file__))))]
+        at = f"{os.path.basename(hf[-1].filename)}:{hf[-1].name}" if hf else "?"
+        return core.fail(
+            "library_raised_during_check",
+            f"{type(e).__name__}: {e} raised in {os.path.basename(inner.filename)}:{inner.name} (reached from {at})",
+            f"{type(e).__name__}@{os.path.basename(inner.filename)}:{inner.name}",
+        )
+
+
 def judge(mod, case, open_findings):
     """returns (outcome, known_id or None, case actually judged)"""
-    out = mod.run_case(case)
+    out = run_case_guarded(mod, case)
     if out.ok:
         return out, None, case
     findings = getattr(mod, "FINDINGS", {})
@@ -79,7 +107,7 @@ def judge(mod, case, open_findings):
             ncase = f.neutralise(cur_case, cur_out)
             if ncase is None:
                 continue
-            nout = mod.run_case(ncase)
+            nout = run_case_guarded(mod, ncase)
             if nout.ok:
                 return cur_out, fid, cur_case
             cur_case, cur_out = ncase, nout
@@ -388,7 +416,7 @@ def main(argv=None):
         for k in known:
             if k["status"] == "open" and k.get("example"):
                 ex = load_case(os.path.join(HERE, k["example"]))
-                out = mod.run_case(ex)
+                out = run_case_guarded(mod, ex)
                 tot["evals"] += 1
                 if out.ok:
                     stale_known.append(k["id"])
